@@ -583,9 +583,39 @@ pub mod gen {
             .boxed()
     }
 
-    /// A real matrix of one of the four kinds, scaled by a power of two and rounded to the scalar type.
+    /// a rotation times a uniform scale chosen so that the determinant sits near the top or the bottom of the normal
+    /// range (|det| in 2^(emax-28) .. 2^emax, or its reciprocal): every cofactor, the determinant and every entry of the
+    /// inverse are normal numbers, but 1/det is close to the subnormal range or to overflow
+    fn extreme_det_mat(n: usize, bits: u32) -> BoxedStrategy<Vec<f64>> {
+        let pi = std::f64::consts::PI;
+        let emax: f64 = if bits == 32 { 127.9 } else { 1000.0 }; // f64: headroom for the double-double reference of the sum of |monomials|
+        (proptest::collection::vec(-pi..pi, 6), (emax - 28.0)..emax, any::<bool>(), any::<bool>())
+            .prop_map(move |(au, ldet, tiny, mirror)| {
+                let u = givens(n, &au);
+                let l = if tiny { -(ldet - 2.0) } else { ldet };
+                let sc = 2f64.powf(l / n as f64);
+                let mut m: Vec<f64> = u.iter().map(|x| x * sc).collect();
+                if mirror {
+                    for r in 0..n {
+                        m[r] = -m[r];
+                    }
+                }
+                m
+            })
+            .boxed()
+    }
+
+    /// A real matrix of one of the five kinds, scaled by a power of two and rounded to the scalar type.
     pub fn real_mat(n: usize, bits: u32) -> BoxedStrategy<Vec<f64>> {
         let g: i32 = if bits == 32 { 10 } else { 60 };
+        let scaled = (prop_oneof![40 => kappa_mat(n, bits), 25 => trs_mat(n, bits), 20 => dense_mat(n), 15 => near_unit_mat(n, bits)], -g..=g, 0u8..3)
+            .prop_map(move |(m, g, use_g)| {
+                let s = if use_g == 0 { 2f64.powi(g) } else { 1.0 };
+                m.iter().map(|x| round_to(bits, x * s)).collect::<Vec<f64>>()
+            });
+        let extreme = extreme_det_mat(n, bits).prop_map(move |m| m.iter().map(|x| round_to(bits, *x)).collect::<Vec<f64>>());
+        return prop_oneof![92 => scaled, 8 => extreme].boxed();
+        #[allow(unreachable_code)]
         (prop_oneof![40 => kappa_mat(n, bits), 25 => trs_mat(n, bits), 20 => dense_mat(n), 15 => near_unit_mat(n, bits)], -g..=g, 0u8..3)
             .prop_map(move |(m, g, use_g)| {
                 let s = if use_g == 0 { 2f64.powi(g) } else { 1.0 };
